@@ -164,6 +164,28 @@ func runFixed(c *core.Ctx, i int) {
 		r.query(qSpec{qs: qs, qe: qe, ratio: 6, cond: allCond(), by: []int{1, 2}, items: []qItem{{4, fnLast}}})
 		r.flush(0)
 		r.query(qSpec{qs: qs, qe: qe, ratio: 1, cond: allCond(), by: []int{1, 2}, items: []qItem{{4, fnLast}, {5, fnFirst}}})
+	case 12:
+		// metricReader.readSeriesData: a file with exactly one field is down-sampled into query
+		// field index 0 (the selected field with the smallest id), whichever field it holds.
+		r.writeRow(0, sA, 5, 0, w1(3, 1), nil, false) // the first file holds only fmax
+		r.flush(0)
+		r.writeRow(0, sA, 6, 0, w1(2, 25), nil, false) // the second file holds only fmin
+		r.flush(0)
+		q := qSpec{qs: qs, qe: qe, ratio: 1, cond: allCond(), items: []qItem{{2, fnMin}, {3, fnMax}}}
+		r.witness("single-field-file-read-into-first-query-field", "files {fmax}, {fmin}; select min(fmin),max(fmax): the fmax value 1 of the first file is answered as fmin (the selected field with the smallest id)", q, "rs [] f2/a3=5:1,6:25")
+	case 13:
+		// down-sampling with last over a bucket whose slots live in memory and in a file: memory
+		// is loaded first, the file last, so the flushed (older) slot's value is the "last".
+		r.writeRow(0, sA, 1, 0, w1(4, 1), nil, false)
+		r.flush(0)
+		r.writeRow(0, sA, 4, 0, w1(4, 2), nil, false)
+		q := qSpec{qs: qs, qe: qe, ratio: 6, cond: allCond(), items: []qItem{{4, fnLast}}}
+		r.witness("last-downsampling-flushed-slot-wins", "last field: slot 1 = 1, flush, slot 4 = 2; last(flast) per minute (ratio 6) answers 1", q, "rs [] f4/a5=0:1")
+	case 14, 15:
+		// reserved (no-op cases keep the indices of the random cases stable)
+		r.oracleOn = true
+		r.writeRow(0, sA, 5+i, 0, w1(1, float64(i)), nil, false)
+		r.query(q1(1, fnSum))
 	}
 }
 
